@@ -136,6 +136,7 @@ func VC10Sinks() {
 			}
 		}
 		got := multierr.Errors(err)
+		vrt.Observe("reported", len(got))
 		vrt.Assert("write-errors-reported", len(got) == len(want))
 	}
 	// (whether a Fatal entry is still synced after a failed write is not part of this property's statement)
